@@ -105,9 +105,14 @@ class CacheStore(object):
         hexdigest = hashlib.sha1(filename.encode('utf-8')).hexdigest()
         return os.path.join(self._directory, hexdigest)
 
-    def _cache_is_valid(self, store_filename, filename):
+    def _cache_is_valid(self, store_filename, filename, store_fd=None):
         try:
-            store_mtime = os.stat(store_filename).st_mtime
+            if store_fd is not None:
+                # Look at the file that was actually opened: the entry may
+                # have been replaced under the same name in the meantime.
+                store_mtime = os.fstat(store_fd).st_mtime
+            else:
+                store_mtime = os.stat(store_filename).st_mtime
         except FileNotFoundError:
             return False
 
@@ -129,7 +134,7 @@ class CacheStore(object):
                 continue
             self._remove_filename(os.path.join(self._directory, filename))
 
-    def store(self, filename, data):
+    def store(self, filename, data, source_mtime_ns=None):
         store_filename = self._get_filename(filename)
         if store_filename is None:
             return
@@ -148,6 +153,12 @@ class CacheStore(object):
                 return
             else:
                 raise
+
+        if source_mtime_ns is not None:
+            # Stamp the entry with the modification time the source had
+            # before it was parsed, so that a source modified during or
+            # after parsing makes the entry look stale rather than fresh.
+            os.utime(tmp_filename, ns=(source_mtime_ns, source_mtime_ns))
 
         try:
             shutil.move(tmp_filename, store_filename)
@@ -171,7 +182,7 @@ class CacheStore(object):
                 raise
 
         with fd:
-            if not self._cache_is_valid(store_filename, filename):
+            if not self._cache_is_valid(store_filename, filename, fd.fileno()):
                 return None
             try:
                 data = pickle.load(fd)
